@@ -110,7 +110,7 @@ func newUnivFor(p *Program, cs *ContractSet) *Univ {
 }
 
 // coverPaths: number of return paths per function that get a reachability cover (all of them in thorough mode)
-var coverPaths = 8
+var coverPaths = 3
 
 func VerifyFunction(p *Program, cs *ContractSet, key string, ct *Contract, maxPaths int) (rep *FuncReport) {
 	rep = &FuncReport{Key: key}
@@ -528,10 +528,11 @@ func SolveAll(obls []*Obligation, timeout time.Duration, needAll bool, workers i
 					gv = o.Inputs
 				}
 				to := timeout
-				if o.Expect == "sat" && to > 4*time.Second {
-					to = 4 * time.Second // covers only need "not refutable"
+				if o.Expect == "sat" && to > 2*time.Second {
+					to = 2 * time.Second // covers only need "not refutable"
 				}
-				r := Solve(o.Decls+addUnfoldings(o.Decls, o.Query), gv, to, needAll && o.Expect != "sat")
+				q := addUnfoldings(o.Decls, o.Query)
+				r := Solve(sliceDecls(o.Decls, q)+q, gv, to, needAll && o.Expect != "sat")
 				o.Result = &r
 			}
 		}()
